@@ -12,7 +12,7 @@ ID = "C18"
 META = {
     "technique": "runtime monitoring: after each generated simulation completes, every acnsim.analysis function is called (constraint currents for random subsets, orderings and duplicates of ids, several thresholds) and its return value is compared with a recomputation from the recorded charging_rates and the case descriptor (voltages, phase angles, constraint coefficients, session energies) in plain Python complex arithmetic",
     "design_ref": "DESIGN.md section 6 C18",
-    "level_text": "exploration: hundreds (quick) / tens of thousands (thorough) of completed simulations with heterogeneous voltages, arbitrary and three-phase angles, mixed-sign constraints registered in shuffled order, ~25 analysis queries per simulation; aggregate current/power, constraint currents by name, energy totals and proportions, demands met at several thresholds, NEMA unbalance incl. NaN positions, datetime array; zero-energy requests; analysis functions also called on the half-done simulator before the run is resumed",
+    "level_text": "exploration: hundreds (quick) / tens of thousands (thorough) of completed simulations with heterogeneous voltages, arbitrary and three-phase angles, mixed-sign constraints registered in shuffled order, ~25 analysis queries per simulation; aggregate current/power, constraint currents by name, energy totals and proportions, demands met at several thresholds, NEMA unbalance incl. NaN positions, datetime array; zero-energy requests; analysis functions also called on the half-done simulator before the run is resumed; constraint ids as set / frozenset / keys view; analysis before the run",
     "level_note": "voltages, angles and coefficients come from the descriptor, not from the network object; both return_magnitudes settings are compared by magnitude (the flag's documented and actual polarity differ and the property does not speak about it); sessions whose unmet energy is within 1e-9 kWh of a threshold are not judged; delivered energy is recomputed from the recorded rates (C02 ties those to the EV counters)",
 }
 LEVEL = "exploration"
